@@ -332,7 +332,9 @@ class DefGen:
         if p == "c19":
             kinds += ["vacation-plain", "flagcmd-str"]
         else:
-            kinds += ["vacation", "flagcmd", "fileinto-flags", "keep-flags"]
+            # ("keep", ":flags", ...) is not generated: sievelib's own parser does not accept keep :flags, so it is not a
+            # supported description (the factory silently ignores it)
+            kinds += ["vacation", "flagcmd", "fileinto-flags"]
         k = kinds[f.int(label + ".kind", len(kinds))]
         if k == "fileinto":
             tags = []
